@@ -840,7 +840,12 @@ func (st *fstate) call(ins ssa.Instruction, cc *ssa.CallCommon, res ssa.Value) {
 		}
 		tgt := callee
 		if o := callee.Origin(); o != nil {
-			tgt = o
+			// an instantiation of a generic function: its own body has the calls through the type
+			// parameter resolved statically; fall back to the generic body only when the instance
+			// was not built
+			if callee.Blocks == nil || st.o.sums[callee] == nil {
+				tgt = o
+			}
 		}
 		if st.o.p.inModule(tgt) && tgt.Blocks != nil {
 			if tgt.Parent() != nil {
